@@ -13,6 +13,8 @@ func init() {
 	register("C18", func(c *core.Ctx, tier string) {
 		c18PacketCreate(c)
 		c18FlushSkeleton(c)
+		c20Snapshot(c, "C18.2b")
+		c01AtomicTake(c)
 		c18QueueAlignment(c)
 		c18TransportDrain(c)
 		c03CloseEpilogue(c) // C18.5 = C03.3: both callback queues are dropped before the close event
@@ -106,7 +108,7 @@ func c18FlushSkeleton(c *core.Ctx) {
 		if !isC || calleeNameOf(ce) != "len" || len(ce.Args) != 1 || !sameObj(x.Info(), ce.Args[0], send.Arg(0)) {
 			return 0
 		}
-		if K, ge, ok := cmpThreshold(cmp); ok && K == 1 {
+		if ge, ok := lenPositive(cmp); ok {
 			if ge == 0 {
 				return 1
 			}
@@ -155,16 +157,46 @@ func c18QueueAlignment(c *core.Ctx) {
 				}
 			}
 			// what is pushed: the taken packetsFn group, or nil
-			for _, p := range pushes {
-				a := p.Arg(0)
-				if core.IsNil(u.Info(), a) {
-					continue
+			isTaken := func(e ast.Expr) bool { // nil, or the packetsFn.AllAndClear() value
+				if core.IsNil(u.Info(), e) {
+					return true
 				}
-				d, k := u.SingleDef(a)
+				d, k := u.SingleDef(e)
+				if _, isZero := d.(*core.ZeroValue); k && isZero {
+					return true
+				}
 				ce, _ := ast.Unparen(d).(*ast.CallExpr)
 				if !k || ce == nil || calleeNameOf(ce) != "AllAndClear" {
-					ok = false
-				} else if se, isS := ce.Fun.(*ast.SelectorExpr); !isS || fieldOf(u.Info(), se.X) != "socket.packetsFn" {
+					return false
+				}
+				se, isS := ce.Fun.(*ast.SelectorExpr)
+				return isS && fieldOf(u.Info(), se.X) == "socket.packetsFn"
+			}
+			for _, p := range pushes {
+				a := p.Arg(0)
+				if isTaken(a) {
+					continue
+				}
+				// a local assigned on different paths: every definition must be nil/zero or the taken group
+				v, _ := core.ObjOf(u.Info(), a).(*types.Var)
+				defs := []ast.Expr{}
+				if v != nil {
+					defs = u.DefsOf(v)
+				}
+				good := len(defs) > 0
+				for _, d := range defs {
+					if d == nil {
+						good = false
+						continue
+					}
+					if _, isZero := d.(*core.ZeroValue); isZero {
+						continue
+					}
+					if !isTaken(d) {
+						good = false
+					}
+				}
+				if !good {
 					ok = false
 				}
 			}
